@@ -20,6 +20,8 @@ import RadixModel.Lemmas.Sbor
 import RadixModel.Lemmas.SborFlavours
 import RadixModel.Lemmas.SborDepth
 
+set_option linter.unusedSectionVars false
+
 namespace Radix.Sbor
 open Radix.Generated
 
@@ -124,7 +126,9 @@ theorem encoding_limit_independent (d d' : Nat) (v : Value X Y) (bs : Bytes)
     · rename_i body hbody
       have hdep := encBody_depth F d d v body hbody
       rw [encBody_of_depth F d d' d v body d' hbody (by omega)]
-      simpa using (by simpa using hb ▸ h : _)
+      simp at hb h
+      subst hb
+      simpa using h
 
 /-- **Unique encoding.** Two well-formed values with the same encoding (under any limits) are equal:
 together with `encode_decode` every value has exactly one encoding and every accepted byte string
